@@ -17,7 +17,7 @@ prop(
              quick=dict(checks=40, shards=4, timeout=600),
              thorough=dict(checks=608, shards=8, timeout=5400)),
         dict(run="^TestPropRace$",
-             quick=dict(checks=40, shards=4, timeout=900),
+             quick=dict(checks=32, shards=4, timeout=900),
              thorough=dict(checks=304, shards=8, timeout=7200)),
     ],
     rule="layer 1: one evaluation = one arrival order (30 per input quick, 200 thorough; serial order is canonical, the reverse "
